@@ -46,6 +46,7 @@ Record facts := {
   f_amount_guard : bool;          (* bankMsgSend: amount sign checked before sdk.NewCoin *)
   f_local_meter : bool;           (* OnRunStart: cacheCtx gas meter = sdk.NewGasMeter(gasLimit) *)
   f_oog_only : bool;              (* HandleOutOfGasPanic converts sdk.ErrorOutOfGas only and re-panics the rest *)
+  f_direct_ro : bool;             (* geth fork StaticCall / DelegateCall / CallCode run precompiles with readOnly = true *)
   f_call_inherits_static : bool   (* geth fork EVM.Call hands the interpreter's read-only flag to precompiles *)
 }.
 
@@ -65,7 +66,7 @@ Definition pc_readonly (F : facts) (k : kind) : bool :=
   match k with
   | KTop => false
   | KCall s => f_call_inherits_static F && s
-  | KStatic | KDelegate | KCallCode => true
+  | KStatic | KDelegate | KCallCode => f_direct_ro F
   end.
 
 (** is the call executed in a static context in the EVM sense *)
@@ -318,9 +319,23 @@ Arguments r_out {St}. Arguments r_left {St}. Arguments r_st {St}.
 Definition with_len_guard (F : facts) (b : bool) : facts :=
   {| f_funtoken := f_funtoken F; f_wasm := f_wasm F; f_oracle := f_oracle F; f_len_guard := b;
      f_denom_guard := f_denom_guard F; f_amount_guard := f_amount_guard F; f_local_meter := f_local_meter F;
-     f_oog_only := f_oog_only F; f_call_inherits_static := f_call_inherits_static F |}.
+     f_oog_only := f_oog_only F; f_direct_ro := f_direct_ro F; f_call_inherits_static := f_call_inherits_static F |}.
 
 Definition with_denom_guard (F : facts) (b : bool) : facts :=
   {| f_funtoken := f_funtoken F; f_wasm := f_wasm F; f_oracle := f_oracle F; f_len_guard := f_len_guard F;
      f_denom_guard := b; f_amount_guard := b; f_local_meter := f_local_meter F;
-     f_oog_only := f_oog_only F; f_call_inherits_static := f_call_inherits_static F |}.
+     f_oog_only := f_oog_only F; f_direct_ro := f_direct_ro F; f_call_inherits_static := f_call_inherits_static F |}.
+
+Definition with_oracle_oog (F : facts) (b : bool) : facts :=
+  {| f_funtoken := f_funtoken F; f_wasm := f_wasm F;
+     f_oracle := {| pf_methods := pf_methods (f_oracle F); pf_start_first := pf_start_first (f_oracle F);
+                    pf_oog_deferred := b; pf_usegas := pf_usegas (f_oracle F) |};
+     f_len_guard := f_len_guard F; f_denom_guard := f_denom_guard F; f_amount_guard := f_amount_guard F;
+     f_local_meter := f_local_meter F; f_oog_only := f_oog_only F; f_direct_ro := f_direct_ro F;
+     f_call_inherits_static := f_call_inherits_static F |}.
+
+Definition with_call_inherits (F : facts) (b : bool) : facts :=
+  {| f_funtoken := f_funtoken F; f_wasm := f_wasm F; f_oracle := f_oracle F;
+     f_len_guard := f_len_guard F; f_denom_guard := f_denom_guard F; f_amount_guard := f_amount_guard F;
+     f_local_meter := f_local_meter F; f_oog_only := f_oog_only F; f_direct_ro := f_direct_ro F;
+     f_call_inherits_static := b |}.
